@@ -94,6 +94,9 @@ def nearbare():
         st.builds(lambda a, b, c: f"{a}.{b}-{c}", seg, seg, seg),
         st.builds(lambda a: "§" + a, seg),
         st.sampled_from(["1.2.3", "1.0-beta", "1.0+b", "6.02e+23", "1e5", "-0", "2.5E-7", "1.", ".5", "1.2.3-", "0x1F"]),
+        # path and URL shapes: '.', '/' and '-' are identifier characters for the lexer, '//' starts a comment
+        st.sampled_from(["//cdn.example.com/lib.js", "//server/share", "//", "/", "/usr/bin", "./x", "../up", "a//b",
+                         "docs/guide.md", "a/b", "/-", "http://x.y/z", "x//", ".hidden", "a/true", "-/"]),
     )
     edit = st.tuples(st.integers(0, 40), st.sampled_from(list("-.,<>_:$§→∧ ") + ["", "", "<>", "::", ",,"]), st.booleans())
 
